@@ -1528,4 +1528,18 @@ example : natypes (exG.sys 0).atoms exG = (.ok 4, (natypes (exG.sys 0).atoms exG
 
 end audit
 
+section audit2
+-- `viewSet_len_mismatch_rejects`: a length-2 column for the 3-atom object 0 of `exS`
+example : viewSet 0 "q" (.lit ⟨.flt, [2], [.flt 1, .flt 2]⟩) exS = (.error .value, exS) :=
+  viewSet_len_mismatch_rejects exS 0 "q" _ 2 [] rfl (by decide) (by decide +kernel)
+-- `propSet_atype_lt_one_rejects`: writing type 0 into one row
+example : propSet 0 "atype" (some (.int 1)) ⟨.int, [], [.int 0]⟩ exS = (.error .value, exS) :=
+  propSet_atype_lt_one_rejects exS 0 (.int 1) ⟨.int, [], [.int 0]⟩ (by decide) (.int 0) (by simp) 0 (by decide +kernel)
+    (by decide +kernel)
+-- `viewSet_atype_lt_one_rejects`: a full atype column containing 0
+example : viewSet 0 "atype" (.lit ⟨.int, [3], [.int 1, .int 0, .int 2]⟩) exS = (.error .value, exS) :=
+  viewSet_atype_lt_one_rejects exS 0 ⟨.int, [3], [.int 1, .int 0, .int 2]⟩ [] (by decide +kernel) (by decide +kernel)
+    (by decide +kernel) (by decide) (.int 0) (by simp) 0 (by decide +kernel) (by decide +kernel)
+end audit2
+
 end Atomman.C06
